@@ -242,14 +242,34 @@ def run_split(chk: Check, prog: Program) -> None:
             return Num(("sym", "u"))
         it.hooks["ext:random.uniform"] = uniform
         it.hooks["ext:random.random"] = uniform
+
+        def randrange(it2, path, args, kwargs):
+            # randrange(stop) / randrange(start, stop) / randint(a, b): a symbol within the range; an empty range raises
+            lo = 0 if len(args) == 1 else args[0]
+            hi = args[0] if len(args) == 1 else args[1]
+            tl, th = it2.to_term(lo), it2.to_term(hi)
+            if tl is None or th is None or len(args) > 2:
+                raise Unsupported(f"{path}{args!r}")
+            inclusive = path.endswith("randint")
+            width = ("sub", th, tl)
+            if not it2.sign_query(width, frozenset(["pos", "zero"] if inclusive else ["pos"]), f"non-empty range {path}"):
+                raise AbsRaise("ValueError", it2.site, "empty range for randrange()")
+            it2.draw_n = getattr(it2, "draw_n", 0) + 1
+            r = ("sym", f"r{it2.draw_n}")
+            it2.assume_sign(("sub", r, tl), frozenset(["zero", "pos"]))
+            it2.assume_sign(("sub", th, r), frozenset(["zero", "pos"] if inclusive else ["pos"]))
+            return Num(r)
+        it.hooks["ext:random.randrange"] = randrange
+        it.hooks["ext:random.randint"] = randrange
         v = Num(("sym", "value"))
+        it.assume_sign(("sym", "value"), frozenset(["zero", "pos"]))   # a count of terms
         return it.call_function(f, [v], {})
 
     for p in explore(prog, body, {"max_updepth": 0}):
         it = p.interp
         label = f"split_in_two_random: {p.cond or 'single path'}"
         if p.outcome == "raise":
-            chk.fail("C17.R2", "C17.R2:split:raise", label, f"raises {p.exc} (the internal assert can fail)", where=f.where)
+            chk.fail("C17.R2", "C17.R2:split:raise", label, f"raises {p.exc}", where=f.where)
             continue
         ok = False
         why = f"returns {p.value!r}"
@@ -529,6 +549,13 @@ def _install_generator_model(it: Interp, negative_numbers: bool) -> None:
                                        [str(x) for x in range(lo, hi + 1)])
         return draw("int")
     it.hooks["ext:random.randint"] = h_randint
+
+    def h_randrange(it2, path, args, kwargs):
+        if all(isinstance(a, int) for a in args) and 1 <= len(args) <= 2:
+            lo, hi = (0, args[0]) if len(args) == 1 else args
+            return h_randint(it2, path, [lo, hi - 1], kwargs)
+        return draw("int")
+    it.hooks["ext:random.randrange"] = h_randrange
     it.hooks["ext:random.shuffle"] = lambda it2, path, args, kwargs: None
     it.hooks["ext:random.uniform"] = lambda it2, path, args, kwargs: 0.5
     it.hooks["ext:random.random"] = lambda it2, path, args, kwargs: 0.5
